@@ -1,0 +1,14 @@
+//go:build verif
+
+package pager
+
+import "git.sr.ht/~rockorager/vaxis"
+
+// VerifLines returns a copy of the laid-out lines (read-only snapshot).
+func (m *Model) VerifLines() [][]vaxis.Cell {
+	out := make([][]vaxis.Cell, len(m.lines))
+	for i, l := range m.lines {
+		out[i] = append([]vaxis.Cell(nil), l.characters...)
+	}
+	return out
+}
